@@ -71,6 +71,21 @@ def invalid_atoms(m):
     return bad
 
 
+def resonance_signature(m_in, m_out):
+    """result-level attribution of two recorded root causes of Resonance.fix_resonance (same atom numbers on both sides):
+    'aromatic-bond-arithmetic': a bond that was aromatic (order 4) in the input is a triple bond in the output (4 - 1 = 3);
+    'ammonium-exit': an ammonium nitrogen (charge +1, neighbours + implicit hydrogens = 4, at least one hydrogen) lost its charge"""
+    for n, k, b in m_in.bonds():
+        if b.order == 4 and n in m_out._bonds and k in m_out._bonds[n] and m_out._bonds[n][k].order == 3:
+            return 'aromatic-bond-arithmetic'
+    for n, a in m_in.atoms():
+        h = a.implicit_hydrogens
+        if a.atomic_number == 7 and a.charge == 1 and h and len(m_in._bonds[n]) + h == 4 \
+                and n in m_out._atoms and m_out._atoms[n].atomic_number == 7 and m_out._atoms[n].charge == 0:
+            return 'ammonium-exit'
+    return None
+
+
 # ---------------------------------------------------------------------------------------------------------------------------
 # rule tables
 # ---------------------------------------------------------------------------------------------------------------------------
